@@ -776,6 +776,29 @@ NextPin:
 			return fmt.Errorf("Error closing rowsPoints: %v", err)
 		}
 
+		// the hashes of edges below this node are part of the new edge's hash
+		rowsChildren, err := tx.Query("SELECT hash FROM edges WHERE up=?", nodeID)
+		if err != nil {
+			rollback()
+			return err
+		}
+		defer rowsChildren.Close()
+
+		for rowsChildren.Next() {
+			var childHash uint32
+			err := rowsChildren.Scan(&childHash)
+			if err != nil {
+				rollback()
+				return err
+			}
+			hashUpdate ^= childHash
+		}
+
+		if err := rowsChildren.Close(); err != nil {
+			rollback()
+			return fmt.Errorf("Error closing rowsChildren: %v", err)
+		}
+
 		_, err = tx.Exec(`INSERT INTO edges(id, up, down, hash, type) VALUES (?, ?, ?, ?, ?)`,
 			edge.ID, edge.Up, edge.Down, 0, edge.Type)
 
@@ -808,7 +831,9 @@ NextPin:
 		}
 	}
 
-	err = sdb.updateHash(tx, nodeID, hashUpdate)
+	// edge points (and the initial content of a new edge) belong to this
+	// edge only, not to other edges that point to the same node
+	err = sdb.updateHashEdge(tx, edge.ID, edge.Hash, parentID, hashUpdate)
 	if err != nil {
 		rollback()
 		return fmt.Errorf("Error updating upstream hash: %v", err)
@@ -822,6 +847,22 @@ NextPin:
 	return nil
 }
 
+// updateHashEdge applies hashUpdate to one edge (id edgeID with stored hash
+// edgeHash, below node up) and to all edges above it.
+func (sdb *DbSqlite) updateHashEdge(tx *sql.Tx, edgeID string, edgeHash uint32, up string, hashUpdate uint32) error {
+	cache := make(map[string]uint32)
+	cache[edgeID] = edgeHash ^ hashUpdate
+
+	if up != "none" {
+		err := sdb.updateHashHelper(tx, up, hashUpdate, cache)
+		if err != nil {
+			return err
+		}
+	}
+
+	return sdb.writeHashes(tx, cache)
+}
+
 func (sdb *DbSqlite) updateHash(tx *sql.Tx, id string, hashUpdate uint32) error {
 	// key in edgeCache is up-down
 	cache := make(map[string]uint32)
@@ -830,7 +871,11 @@ func (sdb *DbSqlite) updateHash(tx *sql.Tx, id string, hashUpdate uint32) error 
 		return err
 	}
 
-	// write update hash values back to edges
+	return sdb.writeHashes(tx, cache)
+}
+
+// writeHashes writes updated hash values back to edges
+func (sdb *DbSqlite) writeHashes(tx *sql.Tx, cache map[string]uint32) error {
 	stmt, err := tx.Prepare(`UPDATE edges SET hash = ? WHERE id = ?`)
 
 	if err != nil {
